@@ -251,7 +251,7 @@ Proof.
         apply (Wf_ext c s2 (s_puniv s)); [|exact W2].
         intros x. destruct (N.eq_dec x p) as [->|Ne]; [rewrite upd_eq; exact Eq | rewrite upd_neq by exact Ne; reflexivity]. }
     rewrite E3.
-    destruct (K3 o' u' Hu') as (u3 & Hu3 & Nu3).
+    destruct (K3 o' u' Hu') as (u3 & Hu3 & Nu3 & _).
     destruct (add_port_wf c s3 (upd (s_puniv s) p None) (Some o') (pc_in pc) p o' u3 W3
                 (or_intror eq_refl) Hu3 (upd_eq _ _ _)) as (s4 & E4 & W4 & SP4 & K4).
     { exists pc. tauto. }
@@ -259,7 +259,7 @@ Proof.
     destruct SP3 as (Q1 & Q2 & Q3 & Q4). destruct SP4 as (R1 & R2 & R3 & R4).
     assert (s_puniv s4 = upd (s_puniv s) p (Some o')) as Epu.
     { rewrite R1, Q1. unfold s2. cbn. rewrite P1. reflexivity. }
-    destruct (K4 o' u3 Hu3) as (u4 & Hu4 & Nu4).
+    destruct (K4 o' u3 Hu3) as (u4 & Hu4 & Nu4 & _).
     assert (keeps_live s s4) as K04.
     { apply (keeps_live_trans s s1); [exact K1|]. apply (keeps_live_trans s1 s3); [exact K3 | exact K4]. }
     exists s4, true. split; [reflexivity|].
@@ -408,7 +408,7 @@ Qed.
 
 (* ---------- clients *)
 Lemma Inv_heap_step c s s' :
-  Inv c s -> Wf c s' (s_puniv s) None -> same_ports s s' -> keeps_live s s' -> Inv c s'.
+  Inv c s -> Wf c s' (s_puniv s) None -> same_ports s s' -> keeps_num s s' -> Inv c s'.
 Proof.
   intros I W (P1 & P2 & P3 & P4) K. constructor.
   - rewrite P1. exact W.
@@ -421,7 +421,16 @@ Proof.
 Qed.
 
 Lemma keeps_live_upd s o u u' :
-  s_heap s o = Live u -> u_num u' = u_num u -> keeps_live s (set_heap s (upd (s_heap s) o (Live u'))).
+  s_heap s o = Live u -> u_num u' = u_num u -> incl (u_src u) (u_src u') ->
+  keeps_live s (set_heap s (upd (s_heap s) o (Live u'))).
+Proof.
+  intros Ho En Hi x ux H. cbn. destruct (N.eq_dec x o) as [->|Ne].
+  - rewrite upd_eq. exists u'. split; [reflexivity|]. replace ux with u by congruence. tauto.
+  - rewrite upd_neq by exact Ne. exists ux. split; [exact H|]. split; [reflexivity | apply incl_refl].
+Qed.
+
+Lemma keeps_num_upd s o u u' :
+  s_heap s o = Live u -> u_num u' = u_num u -> keeps_num s (set_heap s (upd (s_heap s) o (Live u'))).
 Proof.
   intros Ho En x ux H. cbn. destruct (N.eq_dec x o) as [->|Ne].
   - rewrite upd_eq. exists u'. split; [reflexivity | congruence].
@@ -436,19 +445,19 @@ Proof.
     as (W1 & (u & Hu & Nu) & SP & K1 & Hpres).
   unfold deref. rewrite Hu. destruct (mem cl (u_sink u)) eqn:Em.
   - exists s1, (RBool false). split; [reflexivity|]. split; [|exact K1].
-    apply (Inv_heap_step c s s1 I); [|exact SP | exact K1].
+    apply (Inv_heap_step c s s1 I); [|exact SP | exact (keeps_live_num _ _ K1)].
     apply (Wf_close_active c s1 _ o u W1 Hu).
     unfold u_active. apply mem_In in Em. destruct (u_sink u); [destruct Em|].
     cbn. rewrite !andb_false_r. reflexivity.
   - eexists _, _. split; [reflexivity|].
     assert (keeps_live s1 (set_heap s1 (upd (s_heap s1) o (Live (uni_set_sink u (cl :: u_sink u)))))) as K2
-      by (apply (keeps_live_upd s1 o u); [exact Hu | reflexivity]).
+      by (apply (keeps_live_upd s1 o u); [exact Hu | reflexivity | apply incl_refl]).
     split; [|exact (keeps_live_trans _ _ _ K1 K2)].
     apply (Inv_heap_step c s _ I).
     + apply (wf_set_active c s1 _ (Some o) o u); try reflexivity; try assumption; [right; reflexivity|].
       unfold u_active. cbn. rewrite !andb_false_r. reflexivity.
     + destruct SP as (A & B & C & D). repeat split; assumption.
-    + exact (keeps_live_trans _ _ _ K1 K2).
+    + exact (keeps_live_num _ _ (keeps_live_trans _ _ _ K1 K2)).
 Qed.
 
 Lemma store_live c s n o : Inv c s -> sfind n (s_store s) = Some o -> exists u, s_heap s o = Live u /\ u_num u = n.
@@ -466,9 +475,9 @@ Proof.
   set (s1 := set_heap s (upd (s_heap s) o (Live u'))).
   destruct (cand_if_inactive_fields o u' s1) as (F1 & F2 & F3 & F4 & F5 & F6 & F7).
   assert (keeps_live s (cand_if_inactive o u' s1)) as K.
-  { intros x ux H. rewrite F5. exact (keeps_live_upd s o u u' Hu eq_refl x ux H). }
+  { intros x ux H. rewrite F5. exact (keeps_live_upd s o u u' Hu eq_refl (incl_refl _) x ux H). }
   eexists _, _. split; [reflexivity|]. split; [|exact K].
-  apply (Inv_heap_step c s _ I); [|repeat split; assumption | exact K].
+  apply (Inv_heap_step c s _ I); [|repeat split; assumption | exact (keeps_live_num _ _ K)].
   apply (clients_wf c s _ o u u' (inv_wf _ _ I) Hu); reflexivity.
 Qed.
 
@@ -481,27 +490,27 @@ Proof.
   destruct (mem cl (u_src u)).
   { exists s, (RBool true). split; [reflexivity|]. split; [exact I | apply keeps_live_refl]. }
   assert (keeps_live s (set_heap s (upd (s_heap s) o (Live (uni_set_src u (cl :: u_src u)))))) as K
-    by (apply (keeps_live_upd s o u); [exact Hu | reflexivity]).
+    by (apply (keeps_live_upd s o u); [exact Hu | reflexivity | apply incl_tl; apply incl_refl]).
   eexists _, _. split; [reflexivity|]. split; [|exact K].
-  apply (Inv_heap_step c s _ I); [|repeat split | exact K].
+  apply (Inv_heap_step c s _ I); [|repeat split | exact (keeps_live_num _ _ K)].
   apply (wf_set_active c s _ None o u _ (inv_wf _ _ I)); try reflexivity; try assumption; [left; reflexivity|].
   unfold u_active. cbn. rewrite !andb_false_r. rewrite andb_false_l || idtac.
   destruct (is_nil (u_out u) && is_nil (u_in u)); reflexivity.
 Qed.
 
 Lemma src_rem_inv c s n cl :
-  Inv c s -> exists s' r, src_rem s n cl = Ok s' r /\ Inv c s' /\ keeps_live s s'.
+  Inv c s -> exists s' r, src_rem s n cl = Ok s' r /\ Inv c s' /\ keeps_num s s'.
 Proof.
   intros I. unfold src_rem. destruct (sfind n (s_store s)) as [o|] eqn:Ef.
-  2:{ exists s, RUnit. split; [reflexivity|]. split; [exact I | apply keeps_live_refl]. }
+  2:{ exists s, RUnit. split; [reflexivity|]. split; [exact I | apply keeps_num_refl]. }
   destruct (store_live c s n o I Ef) as (u & Hu & Nu). unfold deref. rewrite Hu.
   destruct (mem cl (u_src u)).
-  2:{ exists s, (RBool false). split; [reflexivity|]. split; [exact I | apply keeps_live_refl]. }
+  2:{ exists s, (RBool false). split; [reflexivity|]. split; [exact I | apply keeps_num_refl]. }
   set (u' := uni_set_src u (remove_first cl (u_src u))).
   set (s1 := set_heap s (upd (s_heap s) o (Live u'))).
   destruct (cand_if_inactive_fields o u' s1) as (F1 & F2 & F3 & F4 & F5 & F6 & F7).
-  assert (keeps_live s (cand_if_inactive o u' s1)) as K.
-  { intros x ux H. rewrite F5. exact (keeps_live_upd s o u u' Hu eq_refl x ux H). }
+  assert (keeps_num s (cand_if_inactive o u' s1)) as K.
+  { intros x ux H. rewrite F5. exact (keeps_num_upd s o u u' Hu eq_refl x ux H). }
   eexists _, _. split; [reflexivity|]. split; [|exact K].
   apply (Inv_heap_step c s _ I); [|repeat split; assumption | exact K].
   apply (clients_wf c s _ o u u' (inv_wf _ _ I) Hu); reflexivity.
